@@ -1,6 +1,8 @@
 package rules
 
 import (
+	"fmt"
+	"os"
 	"go/ast"
 	"go/types"
 
@@ -287,7 +289,10 @@ func c10Sticky(p *chk.Prog, r *chk.Report) {
 		if f.IsConstBool(res[0], true) {
 			nt++
 			rs, _ := f.LoopOf(rt.Node).(*ast.RangeStmt)
-			ok := rs != nil && f.ObjOf(rs.X) == readyMap && g.Dominated(rt, chk.GBool(true, rangeVal(f, rs)))
+			ok := rs != nil && f.Denotes(rs.X, readyMap) && g.Dominated(rt, chk.GBool(true, rangeVal(f, rs)))
+			if os.Getenv("MLB_DEBUG_RULE") != "" && rs != nil {
+				fmt.Fprintln(os.Stderr, "DBG sticky", rs != nil, f.Denotes(rs.X, readyMap), f.Src(f.Resolve(rs.X)), g.Dominated(rt, chk.GBool(true, rangeVal(f, rs))))
+			}
 			x.Check("hasHealthyEndpoint:true-result-needs-ready-address", rt.Pos(), ok, "", "true is returned without an address that is still marked ready")
 		} else if !f.IsConstBool(res[0], false) {
 			x.Fail("hasHealthyEndpoint:return-shape", rt.Pos(), "a return that is not a boolean constant")
